@@ -5,7 +5,7 @@ import itertools
 
 import numpy as np
 
-from checks.common import comps, hash_tag, relayout, to_sparse
+from checks.common import comps, hash_tag, relayout, to_sparse, xf_build, xf_names
 from qmc import gen as G
 from qmc import oracle as O
 from qmc.loader import load
@@ -221,6 +221,19 @@ def run_case(case, seed):
                     fails.append(fail("contract_raised", f"{cls}: {back}", cls=cls, **tags))
                 elif G.from_quat(back).tobytes() != np.ascontiguousarray(A).tobytes():
                     fails.append(fail("round_trip_bitwise", f"class {cls}: real_contract(real_expand(A)) is not bit-identical to A", cls=cls, **tags))
+        if emb in ("real_expand", "cadj", "Realp"):
+            # every "unusual but legal" variant: the embedding is pure data movement, so it equals the oracle's exactly, the round trip is
+            # bitwise and the norm factor is exact on these dyadic inputs
+            for nm_ in xf_names(m, n):
+                Ax, lay_ = xf_build(nm_, m, n, fill)
+                ok, F = call(f, Ax) if emb == "Realp" else call(u.real_expand if emb == "real_expand" else u.quaternion_to_complex_adjoint, relayout(G.to_quat(Ax), lay_))
+                evals += 1
+                if not ok or not np.array_equal(np.asarray(F), orc(Ax)):
+                    fails.append(fail("layout", f"variant {nm_}: embedding differs from the oracle's", cls="xf:" + nm_, **tags))
+                elif emb == "real_expand":
+                    ok2, back = call(u.real_contract, F, m, n)
+                    if not ok2 or G.from_quat(back).tobytes() != np.ascontiguousarray(Ax).tobytes():
+                        fails.append(fail("round_trip_bitwise", f"variant {nm_}: real_contract(real_expand(A)) is not bit-identical to A", cls="xf:" + nm_, **tags))
         if emb in ("real_expand", "cadj"):
             # the same matrix in other memory layouts (Fortran order, transposed view, strided view)
             A = fill.quat(m, n, bits=4, lo=-40, hi=40)
